@@ -19,24 +19,24 @@ import (
 )
 
 type Obl struct {
-	Fn      string
-	Name    string // full name fn#kind.label
-	Kind    string // post pre inv.entry inv.preserve safe frame lemma cover canary alloc decreases
-	Label   string
-	Props   []string
-	Goal    string
-	Reach   string
-	NItems  int // number of fc.items usable as hypotheses
-	Pos     token.Position
-	Watch   []watch
-	fc      *FnCtx
+	Fn       string
+	Name     string // full name fn#kind.label
+	Kind     string // post pre inv.entry inv.preserve safe frame lemma cover canary alloc decreases
+	Label    string
+	Props    []string
+	Goal     string
+	Reach    string
+	NItems   int // number of fc.items usable as hypotheses
+	Pos      token.Position
+	Watch    []watch
+	fc       *FnCtx
 	Contract string // text of the clause
 	// result
 	Res SolverResult
 	// for cover obligations the expected status is sat (quantified facts are left out of the query);
 	// for canary obligations (goal false, all facts) anything but unsat is expected
-	ExpectSat bool
-	Canary    bool
+	ExpectSat  bool
+	Canary     bool
 	GroundOnly bool // script without quantified facts (used to search for a counterexample)
 	QSuffix    int  // >0: keep only the last QSuffix quantified facts (sound weakening of the hypotheses)
 	Direct     bool // decided outside the solver (finite enumeration); Res is pre-filled
@@ -92,59 +92,59 @@ type deferRec struct {
 }
 
 type FnCtx struct {
-	e        *Engine
-	fn       *ssa.Function
-	name     string
-	c        *Contract
-	decls    []string
-	declared map[string]bool
-	items    []string
-	obls     []*Obl
-	vals     map[ssa.Value]V
-	ctr      int
-	keySort  map[string]string
-	gens     []*genInfo
-	genMemo  map[string]string
-	entry    *State
-	cur      *State            // state while executing a block
-	reach    string            // reach condition of the current block
-	curBlock *ssa.BasicBlock
-	outState map[*ssa.BasicBlock]*State
-	outReach map[*ssa.BasicBlock]string
-	edgeCond map[edge]string
-	backEdge map[edge]bool
-	loopOrd  map[*ssa.BasicBlock]int
-	loopBody map[*ssa.BasicBlock]map[*ssa.BasicBlock]bool
-	loopPhi  map[*ssa.BasicBlock]map[string]V // header -> names at header (for back-edge check)
-	loopPre  map[*ssa.BasicBlock]*State
-	loopDec  map[*ssa.BasicBlock]string
-	params   map[string]V
-	oblNames map[string]int
-	defers   []deferRec
-	assumptions map[string]bool
-	dtDecl   map[string]bool
-	retCount int
-	watchBase []watch
+	e            *Engine
+	fn           *ssa.Function
+	name         string
+	c            *Contract
+	decls        []string
+	declared     map[string]bool
+	items        []string
+	obls         []*Obl
+	vals         map[ssa.Value]V
+	ctr          int
+	keySort      map[string]string
+	gens         []*genInfo
+	genMemo      map[string]string
+	entry        *State
+	cur          *State // state while executing a block
+	reach        string // reach condition of the current block
+	curBlock     *ssa.BasicBlock
+	outState     map[*ssa.BasicBlock]*State
+	outReach     map[*ssa.BasicBlock]string
+	edgeCond     map[edge]string
+	backEdge     map[edge]bool
+	loopOrd      map[*ssa.BasicBlock]int
+	loopBody     map[*ssa.BasicBlock]map[*ssa.BasicBlock]bool
+	loopPhi      map[*ssa.BasicBlock]map[string]V // header -> names at header (for back-edge check)
+	loopPre      map[*ssa.BasicBlock]*State
+	loopDec      map[*ssa.BasicBlock]string
+	params       map[string]V
+	oblNames     map[string]int
+	defers       []deferRec
+	assumptions  map[string]bool
+	dtDecl       map[string]bool
+	retCount     int
+	watchBase    []watch
 	uncontracted map[string]bool
-	debugNames map[*ssa.BasicBlock]map[string]ssa.Value
-	ifaceSeen map[string]types.Type
-	recovered bool
-	dry       bool
-	pass      *passInfo
-	prev      *passInfo
-	prevSorts map[string]string
-	nilChecked map[string]*ssa.BasicBlock
-	qctr      int
-	spawned   []string
-	ownT      []modTarget
-	retReach  []string
-	witness   map[string]string
-	loopTargets map[*ssa.BasicBlock]*loopFrame
-	localRefs map[string]bool
-	splits    []string
-	splitAt   int
-	havocked  []string
-	peel      map[string][2]string
+	debugNames   map[*ssa.BasicBlock]map[string]ssa.Value
+	ifaceSeen    map[string]types.Type
+	recovered    bool
+	dry          bool
+	pass         *passInfo
+	prev         *passInfo
+	prevSorts    map[string]string
+	nilChecked   map[string]*ssa.BasicBlock
+	qctr         int
+	spawned      []string
+	ownT         []modTarget
+	retReach     []string
+	witness      map[string]string
+	loopTargets  map[*ssa.BasicBlock]*loopFrame
+	localRefs    map[string]bool
+	splits       []string
+	splitAt      int
+	havocked     []string
+	peel         map[string][2]string
 }
 
 type loopFrame struct {
@@ -462,10 +462,26 @@ func (fc *FnCtx) havocAll(st *State) {
 	nac := fc.fresh("ac", sInt)
 	fc.assume(sx(">=", nac, st.ac))
 	st.ac = nac
+	// ghosts declared stable survive calls to unknown code (recorded assumption)
+	keep := map[string]string{}
+	for name, g := range fc.e.specs.Ghosts {
+		if !g.Stable {
+			continue
+		}
+		for k := range fc.keySort {
+			if strings.HasPrefix(k, "ghost:"+name+".") || strings.HasPrefix(k, "ghost:"+name+"@") {
+				keep[k] = fc.heapGet(st, k, fc.keySort[k])
+				fc.assumptions["unknown code leaves the ghost state '"+name+"' as it found it (balanced locking)"] = true
+			}
+		}
+	}
 	fc.gens = append(fc.gens, &genInfo{ac: nac})
 	st.gen = len(fc.gens) - 1
 	st.heap = map[string]string{}
 	st.hac = map[string]string{}
+	for k, v := range keep {
+		st.heap[k] = v
+	}
 }
 
 func arrSort(idx, elem string) string { return fmt.Sprintf("(Array %s %s)", idx, elem) }
